@@ -92,18 +92,18 @@ def famC01 : List Item :=
   (table.filter fun en => !hasImm en && !hasRel en && !isVector en).flatMap fun en =>
     (enumEnc fillRegs en).flatMap (withSynonyms {})
 
-/-- C04: vector and VEX-encoded forms over registers (memory forms with a few shapes) -/
-def famC04 (thorough : Bool) : List Item :=
-  let fr : Fill := { mems := noMems, imms := fun _ => [0, 1, 0x7f, 0x80, 0xff], rels8 := [], rels32 := [] }
-  let fm : Fill := { mems := (if thorough then memsKey else memsFew), imms := fun _ => [0x31], rels8 := [], rels32 := [],
-                     regForm := false, memForm := true }
-  (table.filter fun en => isVector en).flatMap fun en => items {} (enumEnc fr en) ++ items {} (enumEnc fm en)
-
 /-- keep a few registers per class (first, an extended one, the last) -/
 def fewRegs (ds : List Dec) : List Dec :=
   ds.filter fun d => d.ops.all fun o => match o with
     | .reg r => r.num == 1 || r.num == 10 || (r.file == .mm && r.num == 6) || (r.file == .gpr8h && r.num == 5)
     | _ => true
+
+/-- C04: vector and VEX-encoded forms over registers (memory forms with a few shapes) -/
+def famC04 (thorough : Bool) : List Item :=
+  let fr : Fill := { mems := noMems, imms := fun _ => [0, 1, 0x7f, 0x80, 0xff], rels8 := [], rels32 := [] }
+  let fm : Fill := { mems := (if thorough then memsKey else memsMid), imms := fun _ => [0x31], rels8 := [], rels32 := [],
+                     regForm := false, memForm := true }
+  (table.filter fun en => isVector en).flatMap fun en => items {} (enumEnc fr en) ++ items {} (fewRegs (enumEnc fm en))
 
 /-- C02: every entry with a memory-capable operand over the memory shapes -/
 def famC02 (level : Nat) : List Item :=
